@@ -21,7 +21,7 @@ from ..seams import SimFile, StepBudgetExceeded, StepClock
 PROP = "C07"
 LEVEL = "fault_enumeration"
 RUNS = {"quick": 9000, "thorough": 1200000}
-TIME_CAP = {"quick": 300, "thorough": 1500}
+TIME_CAP = {"quick": 300, "thorough": 900}
 RULE = ("enumerated block: every link table over <=4 (thorough 5) sectors, every raw AKAI SAT over <=4 (thorough 6) sectors, every "
         "raw Roland FAT region over 3 (thorough 4) clusters, each entry drawn from {free,end,reserved,error,each in-range link,"
         "out-of-range} and every start sector; then seeded tables of 4..64 words and of the real size (11386 / 65536) made of "
